@@ -45,6 +45,7 @@ THEOREMS = {
             "Rot.C14_index_all_files_within_limit", "Rot.write_limInv", "Rot.restart_limInv", "Rot.C14_stopped_file_rotated_oversized",
             # rendered names for any base file name (Props/C14Render.lean)
             "Rot.C14_render_injective", "Rot.C14_render_collides_across_schemes", "Rot.C14_rendered_names_distinct_partial",
+            "Rot.C14_rendered_names_distinct", "Rot.renderSfx_inj", "Rot.renderSfx_dotFree_ne_nil", "Rot.civil_eq",
             "Rot.C14_scan_sees_rotated", "Rot.C14_F28_no_extension_scan_blind", "Rot.C14_F29_append_option_scan_blind",
             "Rot.C14_F28_blind_restart_loses_statements", "Rot.splitExt_spec", "Rot.getFilename_ext", "Rot.getFilename_noext",
             "Obligations.rot_extraction_complete", "Obligations.rot_size_facts_hold", "Obligations.rot_defaults", "Obligations.rot_enums",
@@ -190,7 +191,7 @@ def run(prop, tier):
         "theorems: naming scheme and base file name fixed for the life of a directory, a base name whose rotated files the start-up scan can see (non-empty extension: `scanSees_rotated`; the others are finding F28, reproduced by the model through `restartBlind`), FilenameAppendOption::None, one size per statement (FileSink). The harness additionally drives, with the property oracle only: restarts that change the naming scheme, RotatingJsonFileSink (F30), the FilenameAppendOptions (F29: the name carries the wall-clock date)",
         "std::filesystem resolves every spelling of the directory (relative, ./, x/../x, symlink, trailing /.) to the same directory; the model has no spelling parameter — that the sink's recovery and rotation do not depend on it is tested by the harness (op parameter sp=, ignored by the driver), not proved",
         "timestamps are natural numbers of nanoseconds (no uint64 wrap); the zone is a constant UTC offset in the theorems (mktime = local seconds − offset)",
-        "names are structured values (suffix, index) in the invariants; their rendering for any base file name (extract_stem_and_extension, _append_string/_index_to_filename, _get_filename) is part of the model (Rot/Render.lean), proved injective on the names of one scheme for every base name given an injective, dot-free suffix rendering (`C14_render_injective`), and every listing / _created_files entry is compared as a rendered string; the calendar arithmetic of strftime %Y%m%d[_%H%M%S] is compared by the harness, not proved injective",
+        "names are structured values (suffix, index) in the invariants; their rendering for any base file name (extract_stem_and_extension, _append_string/_index_to_filename, _get_filename) is part of the model (Rot/Render.lean), proved injective on the names of one scheme for every base name given an injective, dot-free suffix rendering (`C14_render_injective`), and every listing / _created_files entry is compared as a rendered string; the calendar strings %Y%m%d[_%H%M%S] are proved dot-free and injective from the epoch on (`renderSfx_inj`, via the C13 civil round trip) and compared with the real sink's by the harness",
     ]
     ps = ck.proof_side(MODULES[prop], THEOREMS[prop], OBLIG[prop])
     ex = ck.extracted
